@@ -38,6 +38,7 @@ type GhostVar struct {
 }
 
 type AfterSet struct {
+	Nth    int
 	Target string
 	Name   string
 	Clause Clause
@@ -393,7 +394,15 @@ func (cs *ContractSet) parseFile(repo, path string) error {
 			if err != nil {
 				return err
 			}
-			curF.Afters = append(curF.Afters, AfterSet{Target: fs[1], Name: strings.TrimSpace(asg[:j]), Clause: c})
+			tgt, nth := fs[1], 0
+			if k := strings.Index(tgt, "#"); k >= 0 {
+				nth, err = strconv.Atoi(tgt[k+1:])
+				if err != nil {
+					return fail(l, "bad ordinal in %q", tgt)
+				}
+				tgt = tgt[:k]
+			}
+			curF.Afters = append(curF.Afters, AfterSet{Target: tgt, Nth: nth, Name: strings.TrimSpace(asg[:j]), Clause: c})
 		case "safe":
 			if curF == nil {
 				return fail(l, "safe outside func")
